@@ -131,34 +131,109 @@ def _prune(keep=8):
 _ident = re.compile(r"[A-Za-z0-9_]")
 
 
+def _split_top(s, sep):
+    """Split on `sep` at bracket depth 0."""
+    out, depth, cur, i = [], 0, [], 0
+    while i < len(s):
+        c = s[i]
+        if c in "<([":
+            depth += 1
+        elif c in ")]" or (c == ">" and (i == 0 or s[i - 1] != "-")):
+            depth -= 1
+        if depth == 0 and s.startswith(sep, i):
+            out.append("".join(cur))
+            cur = []
+            i += len(sep)
+            continue
+        cur.append(c)
+        i += 1
+    out.append("".join(cur))
+    return out
+
+
+def _match_angle(path, i):
+    depth = 0
+    j = i
+    n = len(path)
+    while j < n:
+        if path[j] == "<":
+            depth += 1
+        elif path[j] == ">" and path[j - 1] != "-":
+            depth -= 1
+            if depth == 0:
+                return j
+        j += 1
+    return n - 1
+
+
+def _norm_generics(inner):
+    """Normalise a kept generic argument list: drop lifetimes, normalise each type argument."""
+    args = [a.strip() for a in _split_top(inner, ",")]
+    args = [a for a in args if a and not re.match(r"^'\w+$", a)]
+    return ", ".join(_norm_type(a) for a in args)
+
+
+def _norm_type(t):
+    """Normalise a type keeping its own generic arguments (lifetimes dropped)."""
+    t = re.sub(r"&'\w+ ", "&", t.strip())
+    return _norm_traitref(t) if t.endswith(">") and not t.startswith("<") else norm(t)
+
+
+def _norm_traitref(t):
+    """`path::Trait<Args>`: strip generics from the path but keep the trait's own (final) type arguments."""
+    t = t.strip()
+    if t.endswith(">"):
+        # find the matching '<' of the final generic list
+        depth = 0
+        for j in range(len(t) - 1, -1, -1):
+            if t[j] == ">" and (j == 0 or t[j - 1] != "-"):
+                depth += 1
+            elif t[j] == "<":
+                depth -= 1
+                if depth == 0:
+                    head, inner = t[:j], t[j + 1:-1]
+                    if head.endswith("::"):
+                        head = head[:-2]
+                    g = _norm_generics(inner)
+                    return norm(head) + ("<" + g + ">" if g else "")
+    return norm(t)
+
+
 def norm(path):
-    """Strip generic argument lists (`Foo::<'a>`, `Foo<'a>`), keep `<X as Y>::m` and `<impl ..>`."""
+    """Strip generic argument lists (`Foo::<'a>`, `Foo<T>`) but keep qualified segments `<X as Trait<Args>>`
+    and `<impl Trait<Args> for X>` with the trait's type arguments (lifetimes dropped), so that distinct
+    impls keep distinct names."""
     out = []
     i, n = 0, len(path)
     while i < n:
         c = path[i]
         if c == "<":
             prev = out[-1] if out else ""
-            is_generic = False
-            if prev and _ident.match(prev):
-                is_generic = True
-            elif "".join(out[-2:]) == "::" and not path.startswith("<impl", i):
-                is_generic = True
+            j = _match_angle(path, i)
+            inner = path[i + 1:j]
+            is_generic = bool(prev and _ident.match(prev)) or ("".join(out[-2:]) == "::" and not inner.startswith("impl ") and " as " not in _split_top(inner, " as ")[0] + " as " * (len(_split_top(inner, " as ")) > 1) and len(_split_top(inner, " as ")) == 1)
             if is_generic:
-                depth = 0
-                j = i
-                while j < n:
-                    if path[j] == "<":
-                        depth += 1
-                    elif path[j] == ">" and path[j - 1] != "-":
-                        depth -= 1
-                        if depth == 0:
-                            break
-                    j += 1
-                i = j + 1
                 if "".join(out[-2:]) == "::":
                     out = out[:-2]
+                i = j + 1
                 continue
+            # qualified segment
+            if inner.startswith("impl "):
+                body = inner[5:]
+                parts = _split_top(body, " for ")
+                if len(parts) == 2:
+                    seg = "<impl %s for %s>" % (_norm_traitref(parts[0]), _norm_type(parts[1]))
+                else:
+                    seg = "<impl %s>" % _norm_type(body)
+            else:
+                parts = _split_top(inner, " as ")
+                if len(parts) == 2:
+                    seg = "<%s as %s>" % (_norm_type(parts[0]), _norm_traitref(parts[1]))
+                else:
+                    seg = "<%s>" % _norm_type(inner)
+            out.extend(seg)
+            i = j + 1
+            continue
         out.append(c)
         i += 1
     return "".join(out)
@@ -583,6 +658,7 @@ class Program:
         self.bodies = {}
         self.hir = {}
         self.local_crates = set()
+        self.collisions = []
         raw = {}
         for f in sorted(os.listdir(facts_dir)):
             if not f.endswith(".json") or f == "META.json":
@@ -599,6 +675,12 @@ class Program:
             self.hir[key] = j["hir"]
             for bj in j["bodies"]:
                 b = Body(self, key, bj)
+                if b.path in self.bodies:
+                    k = 1
+                    while "%s#%d" % (b.path, k) in self.bodies:
+                        k += 1
+                    self.collisions.append(b.path)
+                    b.path = "%s#%d" % (b.path, k)
                 self.bodies[b.path] = b
         self._callers = None
         self._impls_of_trait_method = None
